@@ -44,7 +44,7 @@ pub const PROPS: &[PropSpec] = &[
         rule: "non-trivial: >=2 client threads had public API calls overlapping in time, one of them a shutdown, subscription or iterator operation" },
     PropSpec { id: "C14", families: &[("sub", 10)], borrowed: &[], quick_runs: 96_000,
         rule: "non-trivial: an iterator yielded >=1 item and its consumer overlapped a producer or stop()" },
-    PropSpec { id: "C15", families: &[("stop", 10)], borrowed: &[], quick_runs: 96_000,
+    PropSpec { id: "C15", families: &[("stop", 10)], borrowed: &[("C11", "stop"), ("C09", "stop"), ("C10", "stop")], quick_runs: 96_000,
         rule: "non-trivial: a DroppableStore was dropped while a dispatch overlapped the drop or with backlog >= 1" },
     PropSpec { id: "C16", families: &[("sub", 5), ("core", 3), ("two", 2)], borrowed: &[], quick_runs: 96_000,
         rule: "non-trivial: a selector subscriber saw >=2 notifications of which at least one repeated the previous selected value" },
